@@ -3,6 +3,7 @@ import RedisVerif.Model.ShardsStr
 import RedisVerif.Model.ShardsClock
 import RedisVerif.Lemmas.Shards
 import RedisVerif.Lemmas.ShardsStr
+import RedisVerif.Lemmas.ShardsClock
 
 /-!
 # C03 — Shard count is unobservable: N shards answer exactly like one shard
@@ -23,6 +24,10 @@ only the keys it names), with the two routing hashes of the code as two function
   give equivalent replies to, and end with the same keyspace after, every routable sequence;
   `shard_count_unobservable_repaired` is the same for the repaired routing, with no hypothesis
   on the hashes.
+* `shard_count_unobservable_timed` — the timed model (`Model/ShardsClock.lean`: per-shard clocks,
+  PX / EX deadlines, eviction, every entry path incl. the batch pipelines): when every message
+  kind carries the virtual time, N shards and one shard give the same replies for every run with
+  monotone time; `stale_clock_*_counterexample` for a kind that does not adopt the time.
 * `…_counterexample` — what the pinned code does outside these hypotheses (all replayed on the
   real code by the harness on every run): the two hashes differ (`fast_set` then generic `STRLEN`),
   two-key commands run on the first key's shard (RENAME), MSETNX likewise, SCAN drops the shards'
@@ -596,32 +601,56 @@ end counterexamples
 section clock
 open Shards.Clock
 
-/-- shard count unobservable also when time passes and keys expire — kept as a statement: it is
-    NOT proved here (expiry is C01's model); the timed model is tied to the code by the C03
-    correspondence (timed streams) and the 1-vs-N oracle -/
-def C03_statement_timed (carries : Bool) : Prop :=
-  ∀ (R : Routes), R.Valid → 0 < R.N → ∀ steps : List (Nat × TCmd),
-    runNT R carries (tinit R.N) steps = runNT oneShard carries (tinit 1) steps
+/-- **shard count unobservable also when time passes and keys expire** (full statement, for a given
+    assignment of which message kinds carry the virtual time): for every run with monotone virtual
+    time the replies of `R.N` shards equal those of one shard -/
+def C03_statement_timed (K : Carries) : Prop :=
+  ∀ (R : Routes), R.Valid → 0 < R.N → ∀ steps : List (Nat × TCmd), Mono 0 steps →
+    runNT R K (tinit R.N) steps = runNT oneShard K (tinit 1) steps
 
-/-- the fast / pooled messages did not carry the virtual time: `SET 1 v PX 100` at t = 0; at
-    t = 200 a generic `GET 2` (another shard) and then `fast_get 1` — one shard: nil (its clock was
-    advanced by the GET), two shards: the expired value (key 1's shard still thinks it is t = 0) -/
+/-- **proved for the code as it is** (every `ShardMessage` kind carries the time and the shard
+    adopts it before executing): TTLs (PX / EX), any passage of time, traffic to any shards in
+    between, every entry path (generic, fast, pooled, batch pipelines, MGET / MSET, DBSIZE) -/
+theorem shard_count_unobservable_timed : C03_statement_timed allCarry := by
+  intro R hv _ steps hm
+  exact runNT_refines hv steps (trel_init R) hm
+
+/-- non-vacuity: a run in which a TTL runs out between two reads through different paths -/
+example : runNT twoRoutes allCarry (tinit 2)
+    [(0, .key .generic 1 (.setPx [118] 100)), (99, .batch .batchGet [(1, .get), (2, .get)]),
+     (100, .key .generic 2 (.set [119])), (100, .key .pooledGet 1 .get), (100, .dbsize)]
+    = [[.ok], [.bulk [118], .nil], [.ok], [.nil], [.int 1]] := by decide
+
+/-- a message kind that does NOT carry the time, all others do -/
+def allBut (k0 : Kind) : Carries := fun k => decide (k ≠ k0)
+
+/-- the seeded / pre-ef50533 behaviour for one kind: `SET 1 v PX 100` at t = 0; at t = 500 a generic
+    `GET 2` (another shard), then key 1 is read through the given path -/
+def staleRun (read : TCmd) : List (Nat × TCmd) :=
+  [(0, .key .generic 1 (.setPx [118] 100)), (500, .key .generic 2 .get), (500, read)]
+
+/-- `fast_batch_get_pipeline` without `set_time` (seed C03-batch-get-skips-set-time): two shards
+    serve the expired value, one shard answers nil -/
+theorem stale_clock_batch_get_counterexample :
+    runNT twoRoutes (allBut .batchGet) (tinit 2) (staleRun (.batch .batchGet [(1, .get)]))
+      = [[.ok], [.nil], [.bulk [118]]] ∧
+    runNT oneShard (allBut .batchGet) (tinit 1) (staleRun (.batch .batchGet [(1, .get)]))
+      = [[.ok], [.nil], [.nil]] := by decide
+
+/-- the same for `fast_get` and `pooled_fast_get` (the code before fix ef50533) -/
 theorem stale_clock_counterexample :
-    runNT twoRoutes false (tinit 2) [(0, .setPx 1 [118] 100), (200, .get 2), (200, .fastGet 1)]
-      = [.ok, .nil, .bulk [118]] ∧
-    runNT oneShard false (tinit 1) [(0, .setPx 1 [118] 100), (200, .get 2), (200, .fastGet 1)]
-      = [.ok, .nil, .nil] := by decide
+    runNT twoRoutes (allBut .fastGet) (tinit 2) (staleRun (.key .fastGet 1 .get))
+      = [[.ok], [.nil], [.bulk [118]]] ∧
+    runNT oneShard (allBut .fastGet) (tinit 1) (staleRun (.key .fastGet 1 .get))
+      = [[.ok], [.nil], [.nil]] ∧
+    runNT twoRoutes (allBut .pooledGet) (tinit 2) (staleRun (.key .pooledGet 1 .get))
+      = [[.ok], [.nil], [.bulk [118]]] := by decide
 
-theorem C03_statement_timed_pinned_counterexample : ¬ C03_statement_timed false := by
+theorem C03_statement_timed_counterexample : ¬ C03_statement_timed (allBut .batchGet) := by
   intro h
   have := h twoRoutes (ofTable_valid 2 _ (by decide) (by decide)) (by decide)
-    [(0, .setPx 1 [118] 100), (200, .get 2), (200, .fastGet 1)]
+    (staleRun (.batch .batchGet [(1, .get)])) (by decide)
   revert this
-  decide
-
-/-- with the virtual time carried by every message the same run agrees -/
-example : runNT twoRoutes true (tinit 2) [(0, .setPx 1 [118] 100), (200, .get 2), (200, .fastGet 1)]
-    = runNT oneShard true (tinit 1) [(0, .setPx 1 [118] 100), (200, .get 2), (200, .fastGet 1)] := by
   decide
 
 end clock
